@@ -397,3 +397,196 @@ Proof.
     rewrite Esp. rewrite !flat_prof_snoc.
     cbn [wtrees map wtree w_sp]. rewrite profiles_is_prof_node. rewrite <- !app_assoc. cbn [app]. reflexivity.
 Qed.
+
+(* ------------------------------------------------------------------ the children of an entry *)
+Lemma is_relation_lrel r : is_relation (lrel_tree r) = true. Proof. reflexivity. Qed.
+Lemma ws_elem_lrel r : ws_elem (lrel_tree r) = false. Proof. reflexivity. Qed.
+
+Lemma alts_split (alts : list (wsl * wsl * lrel)) j a : nth_error alts j = Some a ->
+  exists a1 a2, alts = a1 ++ a :: a2 /\ length a1 = j.
+Proof.
+  intros H. destruct (nth_error_split_eq _ _ _ H) as [E L]. now exists (firstn j alts), (skipn (S j) alts).
+Qed.
+
+Lemma alt_part_eq w1 w2 r : alt_part (w1, w2, r) = (wtrees w1 ++ t_pipe :: wtrees w2) ++ [lrel_tree r].
+Proof. unfold alt_part. cbn [fst snd]. now rewrite <- app_assoc. Qed.
+(* the last child of "first relation + alternatives" is a relation *)
+Lemma alts_end_not_ws x a1 : ws_elem x = false -> ws_prefix_len (rev (x :: flat_map alt_part a1)) = 0.
+Proof.
+  intros Hx. destruct (list_snoc_cases a1) as [->|(a' & [[w1 w2] r] & ->)].
+  - cbn. now rewrite Hx.
+  - rewrite flat_map_app. cbn [flat_map]. rewrite app_nil_r, alt_part_eq.
+    rewrite app_comm_cons, !app_assoc, rev_app_distr. reflexivity.
+Qed.
+
+(* the relations among the children, by position *)
+Lemma filter_relation_wtrees w : filter is_relation (wtrees w) = [].
+Proof. induction w as [|t ws IHw]; [reflexivity|]. cbn [wtrees map filter]. rewrite is_relation_wtree. exact IHw. Qed.
+Lemma filter_relations_alts alts :
+  filter is_relation (flat_map alt_part alts) = map (fun a => lrel_tree (snd a)) alts.
+Proof.
+  induction alts as [|[[w1 w2] r] rest IH]; [reflexivity|].
+  cbn [flat_map map snd]. rewrite alt_part_eq, !filter_app. cbn [filter].
+  rewrite ?filter_relation_wtrees. change (is_relation t_pipe) with false. cbn iota.
+  rewrite ?filter_relation_wtrees. rewrite is_relation_lrel. cbn [app]. now rewrite IH.
+Qed.
+
+Lemma nth_index_skip_false {A} (p : A -> bool) n a b : Forall (fun x => p x = false) a ->
+  nth_index p n (a ++ b) = option_map (fun i => length a + i) (nth_index p n b).
+Proof.
+  induction 1 as [|x r Hx _ IH]; cbn [app length].
+  - destruct (nth_index p n b); reflexivity.
+  - cbn [nth_index]. rewrite Hx, IH. destruct (nth_index p n b); reflexivity.
+Qed.
+
+Lemma sep_no_relation w1 w2 : Forall (fun x => is_relation x = false) (wtrees w1 ++ t_pipe :: wtrees w2).
+Proof.
+  apply Forall_app. split; [apply Forall_wtrees, is_relation_wtree|].
+  constructor; [reflexivity|apply Forall_wtrees, is_relation_wtree].
+Qed.
+
+Lemma nth_index_rel_alts j : forall alts w1 w2 r a1 a2,
+  alts = a1 ++ (w1, w2, r) :: a2 -> length a1 = j ->
+  nth_index is_relation j (flat_map alt_part alts) =
+  Some (length (flat_map alt_part a1 ++ wtrees w1 ++ t_pipe :: wtrees w2)).
+Proof.
+  induction j as [|j IH]; intros alts w1 w2 r a1 a2 -> L.
+  - destruct a1; [|discriminate]. cbn [app flat_map]. rewrite alt_part_eq, <- app_assoc.
+    rewrite nth_index_skip_false by apply sep_no_relation. cbn [app nth_index]. rewrite is_relation_lrel.
+    cbn [option_map]. now rewrite Nat.add_0_r.
+  - destruct a1 as [|[[v1 v2] r1] a1']; [discriminate|]. cbn [app flat_map]. cbn in L.
+    rewrite alt_part_eq, <- app_assoc. rewrite nth_index_skip_false by apply sep_no_relation.
+    cbn [app nth_index]. rewrite is_relation_lrel.
+    rewrite (IH (a1' ++ (w1, w2, r) :: a2) w1 w2 r a1' a2 eq_refl ltac:(lia)). cbn [option_map].
+    f_equal. rewrite !app_length. cbn [length]. rewrite ?app_length. cbn [length]. lia.
+Qed.
+
+Lemma nth_index_app_some {A} (p : A -> bool) n a b i :
+  nth_index p n a = Some i -> nth_index p n (a ++ b) = Some i.
+Proof.
+  revert n i; induction a as [|x r IH]; intros n i H; cbn in H; [discriminate|]. cbn [app nth_index].
+  destruct (p x).
+  - destruct n; [exact H|]. destruct (nth_index p n r) eqn:E; [|discriminate]. now rewrite (IH _ _ E).
+  - destruct (nth_index p n r) eqn:E; [|discriminate]. now rewrite (IH _ _ E).
+Qed.
+
+(* the j-th alternative of an entry, seen among its children *)
+Lemma entry_rel_split e j r : nth_rel e j = Some r ->
+  exists pre post,
+    lentry_children e = pre ++ lrel_tree r :: post /\
+    nth_index is_relation j (lentry_children e) = Some (length pre) /\
+    (forall g, lentry_children (upd_rel e j g) = pre ++ lrel_tree (g r) :: post).
+Proof.
+  destruct e as [r0 alts tr]. destruct j as [|j]; cbn [nth_rel e_first e_alts].
+  - intros [= <-]. exists [], (flat_map alt_part alts ++ wtrees tr). repeat split.
+  - intros H. destruct (nth_error alts j) as [[[w1 w2] r']|] eqn:E; [|discriminate]. cbn in H. injection H as <-.
+    destruct (alts_split _ _ _ E) as (a1 & a2 & -> & L).
+    exists (lrel_tree r0 :: flat_map alt_part a1 ++ wtrees w1 ++ t_pipe :: wtrees w2),
+           (flat_map alt_part a2 ++ wtrees tr).
+    assert (Esplit : forall r'', lentry_children (mk_lentry r0 (a1 ++ (w1, w2, r'') :: a2) tr) =
+              (lrel_tree r0 :: flat_map alt_part a1 ++ wtrees w1 ++ t_pipe :: wtrees w2) ++ lrel_tree r'' :: flat_map alt_part a2 ++ wtrees tr).
+    { intros r''. unfold lentry_children. cbn [e_first e_alts e_trail]. rewrite flat_map_app. cbn [flat_map].
+      rewrite alt_part_eq. rewrite <- !app_assoc. cbn [app]. rewrite <- !app_assoc. reflexivity. }
+    repeat split.
+    + apply Esplit.
+    + unfold lentry_children. cbn [e_first e_alts e_trail nth_index]. rewrite is_relation_lrel.
+      rewrite (nth_index_app_some _ _ _ _ _ (nth_index_rel_alts j _ w1 w2 r' a1 a2 eq_refl L)).
+      cbn [option_map length]. reflexivity.
+    + intros g. cbn [upd_rel e_first e_alts e_trail]. rewrite <- L, upd_nth_app_r. cbn [fst snd]. apply Esplit.
+Qed.
+
+(* ------------------------------------------------------------------ Entry::push *)
+Lemma entry_body_snoc r0 alts : exists init last,
+  lrel_tree r0 :: flat_map alt_part alts = init ++ [lrel_tree last].
+Proof.
+  destruct (list_snoc_cases alts) as [->|(a' & [[w1 w2] r] & ->)].
+  - now exists [], r0.
+  - exists (lrel_tree r0 :: flat_map alt_part a' ++ wtrees w1 ++ t_pipe :: wtrees w2), r.
+    rewrite flat_map_app. cbn [flat_map]. rewrite app_nil_r, alt_part_eq.
+    cbn [app]. now rewrite <- !app_assoc.
+Qed.
+
+Lemma epush_commute e r : entry_push_green (lentry_tree e) (lrel_tree r) = lentry_tree (a_epush e r).
+Proof.
+  destruct e as [r0 alts tr]. unfold entry_push_green, entry_push_plan, lentry_tree, a_epush.
+  cbn [children set_children ekind]. unfold lentry_children. cbn [e_first e_alts e_trail].
+  cbn [existsb]. change (kind_is RELATION (lrel_tree r0)) with true. rewrite orb_true_r. cbn [orb negb].
+  rewrite app_comm_cons. rewrite last_index_app_none by (apply Forall_wtrees, is_relation_wtree).
+  destruct (entry_body_snoc r0 alts) as (init & lst & E). rewrite E.
+  rewrite last_index_snoc by apply is_relation_lrel.
+  replace (S (length init)) with (length (init ++ [lrel_tree lst])) by (rewrite app_length; cbn; lia).
+  rewrite insert_at_app_len. rewrite <- E.
+  rewrite flat_map_app. cbn [flat_map]. rewrite alt_part_eq. cbn [wtrees map wtree w_sp app set_children ekind].
+  rewrite ?app_nil_r. rewrite <- !app_assoc. reflexivity.
+Qed.
+
+(* ------------------------------------------------------------------ Relation::remove inside its entry *)
+Lemma scan_next_trail tr : relation_remove_scan_next (wtrees tr) = Ok (length (wtrees tr)).
+Proof.
+  unfold relation_remove_scan_next. rewrite ws_prefix_len_wtrees_all, <- (wtrees_length tr), skipn_all.
+  reflexivity.
+Qed.
+Lemma scan_next_sep w1 w2 x R : ws_elem x = false ->
+  relation_remove_scan_next ((wtrees w1 ++ t_pipe :: wtrees w2) ++ x :: R) = Ok (length (wtrees w1 ++ t_pipe :: wtrees w2)).
+Proof.
+  intros Hx. unfold relation_remove_scan_next. rewrite <- app_assoc. rewrite ws_prefix_len_wtrees. cbn [app ws_prefix_len].
+  change (ws_elem t_pipe) with false. cbn iota. rewrite Nat.add_0_r. rewrite <- (wtrees_length w1), skipn_app_len.
+  change (kind_is PIPE t_pipe) with true. cbn iota. rewrite ws_prefix_len_wtrees. cbn [app ws_prefix_len]. rewrite Hx.
+  f_equal. rewrite app_length. cbn [length]. rewrite !wtrees_length. lia.
+Qed.
+
+Lemma remove_rel_commute e j r pre post : nth_rel e j = Some r ->
+  lentry_children e = pre ++ lrel_tree r :: post ->
+  nth_index is_relation j (lentry_children e) = Some (length pre) ->
+  relation_remove_cs (lentry_children e) (length pre) =
+  Ok (match a_remove_rel e j with Some e' => lentry_children e' | None => [] end).
+Proof.
+  intros Hr Ecs Hn. destruct e as [r0 alts tr]. destruct j as [|j].
+  - (* the first alternative *)
+    cbn [nth_rel e_first] in Hr. injection Hr as <-.
+    assert (pre = []).
+    { unfold lentry_children in Hn. cbn [e_first nth_index] in Hn. rewrite is_relation_lrel in Hn.
+      injection Hn as Hn. destruct pre; [reflexivity|discriminate]. }
+    subst pre. cbn [app length] in *. unfold relation_remove_cs. cbn [firstn existsb negb].
+    unfold lentry_children, a_remove_rel. cbn [e_first e_alts e_trail skipn].
+    destruct alts as [|[[w1 w2] r1] rest].
+    + cbn [flat_map app]. rewrite scan_next_trail, skipn_all. reflexivity.
+    + cbn [flat_map e_first e_alts e_trail]. rewrite alt_part_eq. rewrite <- !app_assoc. cbn [app].
+      replace (wtrees w1 ++ t_pipe :: wtrees w2 ++ lrel_tree r1 :: flat_map alt_part rest ++ wtrees tr)
+        with ((wtrees w1 ++ t_pipe :: wtrees w2) ++ lrel_tree r1 :: flat_map alt_part rest ++ wtrees tr)
+        by (now rewrite <- app_assoc).
+      rewrite scan_next_sep by reflexivity. rewrite skipn_app_len. reflexivity.
+  - (* a later one *)
+    cbn [nth_rel e_alts] in Hr. destruct (nth_error alts j) as [[[w1 w2] r']|] eqn:E; [|discriminate].
+    cbn in Hr. injection Hr as <-.
+    destruct (alts_split _ _ _ E) as (a1 & a2 & -> & L).
+    set (body := lrel_tree r0 :: flat_map alt_part a1).
+    assert (Ecs' : lentry_children (mk_lentry r0 (a1 ++ (w1, w2, r') :: a2) tr)
+                   = (body ++ wtrees w1 ++ t_pipe :: wtrees w2) ++ lrel_tree r' :: flat_map alt_part a2 ++ wtrees tr).
+    { unfold lentry_children, body. cbn [e_first e_alts e_trail]. rewrite flat_map_app. cbn [flat_map].
+      rewrite alt_part_eq. rewrite <- !app_assoc. cbn [app]. rewrite <- ?app_assoc. reflexivity. }
+    assert (Hlen : length pre = length (body ++ wtrees w1 ++ t_pipe :: wtrees w2)).
+    { unfold lentry_children in Hn. cbn [e_first e_alts e_trail nth_index] in Hn. rewrite is_relation_lrel in Hn.
+      rewrite (nth_index_app_some _ _ _ _ _ (nth_index_rel_alts j _ w1 w2 r' a1 a2 eq_refl L)) in Hn.
+      cbn [option_map] in Hn. injection Hn as Hn. rewrite <- Hn. unfold body. cbn [app length]. now rewrite app_length. }
+    rewrite Ecs' in Ecs. destruct (split_unique _ _ _ _ _ _ Ecs (eq_sym Hlen)) as (Epre & _ & Epost).
+    rewrite Ecs'. rewrite <- Epre. unfold relation_remove_cs. rewrite firstn_app_len, skipn_S_app_len.
+    assert (Hex : existsb is_relation (body ++ wtrees w1 ++ t_pipe :: wtrees w2) = true) by reflexivity.
+    rewrite Hex. cbn [negb].
+    unfold relation_remove_scan_prev.
+    rewrite !rev_app_distr. cbn [rev]. rewrite <- !app_assoc. cbn [app].
+    rewrite rev_wtrees, ws_prefix_len_wtrees. cbn [ws_prefix_len]. change (ws_elem t_pipe) with false. cbn iota.
+    rewrite Nat.add_0_r, rev_length.
+    replace (skipn (length w2) (wtrees (rev w2) ++ t_pipe :: rev (wtrees w1) ++ rev body))
+      with (t_pipe :: rev (wtrees w1) ++ rev body)
+      by (rewrite <- (rev_length w2), <- (wtrees_length (rev w2)), skipn_app_len; reflexivity).
+    change (kind_is PIPE t_pipe) with true. cbn iota.
+    rewrite rev_wtrees, ws_prefix_len_wtrees.
+    replace (ws_prefix_len (rev body)) with 0 by (symmetry; apply alts_end_not_ws; reflexivity).
+    rewrite Nat.add_0_r, rev_length.
+    replace (length (body ++ wtrees w1 ++ t_pipe :: wtrees w2) - (S (length w2) + length w1)) with (length body)
+      by (rewrite !app_length; cbn [length]; rewrite !wtrees_length; lia).
+    rewrite firstn_app_len. unfold a_remove_rel. cbn [e_first e_alts e_trail].
+    rewrite <- L, remove_nth_app_len. f_equal. unfold lentry_children, body. cbn [e_first e_alts e_trail].
+    rewrite flat_map_app. cbn [app]. now rewrite <- !app_assoc.
+Qed.
